@@ -64,7 +64,7 @@ func newWorld(c pcfg) *world {
 	w.mitmCA = lib.NewCA("verif MITM CA")
 	w.origCA = lib.NewCA("verif origin CA")
 	w.otherCA = lib.NewCA("somebody else")
-	names := []string{"valid.test", "VALID.test", "Api.Valid.TEST", "a.test", "b.test", "c.test", "d.test", "e.test", "f.test", "g.test", "h.test", "tunnel.test", "late-valid.test", "10.11.12.13", "192.0.2.200", "2001:db8::99", "::1"}
+	names := []string{"valid.test", "VALID.test", "Api.Valid.TEST", "a.test", "b.test", "c.test", "d.test", "e.test", "f.test", "g.test", "h.test", "tunnel.test", "late-valid.test", long64, long65, long253, "10.11.12.13", "192.0.2.200", "2001:db8::99", "::1"}
 	mk := func(name string, cert tls.Certificate) {
 		w.origins[name] = lib.MustOrigin(name, "127.0.0.1:0", &tls.Config{Certificates: []tls.Certificate{cert}}, echo)
 	}
@@ -171,7 +171,14 @@ type target struct {
 	connOpt   string // extra CONNECT header lines
 }
 
-var hostPool = []string{"valid.test", "VALID.test", "Api.Valid.TEST", "a.test", "b.test", "c.test", "d.test", "e.test", "f.test", "g.test", "h.test", "10.11.12.13", "192.0.2.200", "[2001:db8::99]", "[::1]"}
+// names on and past the 64-octet limit of an X.509 common name, and of the longest legal length
+var (
+	long64  = strings.Repeat("a", 57) + ".b.test"
+	long65  = strings.Repeat("a", 58) + ".b.test"
+	long253 = strings.Repeat("a", 63) + "." + strings.Repeat("b", 63) + "." + strings.Repeat("c", 63) + "." + strings.Repeat("d", 56) + ".test"
+)
+
+var hostPool = []string{long64, long65, long253, "valid.test", "VALID.test", "Api.Valid.TEST", "a.test", "b.test", "c.test", "d.test", "e.test", "f.test", "g.test", "h.test", "10.11.12.13", "192.0.2.200", "[2001:db8::99]", "[::1]"}
 
 func genTarget(r *lib.RNG) target {
 	h := lib.Pick(r, hostPool)
